@@ -7,7 +7,7 @@
    Hypotheses: no call of the history panicked (nil dereference in the caller's structures) and every WriteData got an
    adaptation field whose writer-internal members are zero on entry (DESIGN.md S1). *)
 From Coq Require Import ZArith List.
-Require Import Base.Iter Gen.Consts Gen.Types Model.Muxer Spec.MuxSpec Proofs.MuxerProofs Proofs.MuxerExamples.
+Require Import Base.Iter Base.Wr Gen.Consts Gen.Types Model.Packet Model.Muxer Spec.MuxSpec Proofs.MuxerProofs Proofs.MuxerExamples.
 Import ListNotations.
 Open Scope Z_scope.
 
@@ -39,6 +39,25 @@ Theorem C05_cc_tables : forall (pat : bool) period ops,
   chain16 (emitted_ccs (table_pid pat) (combine ops (snd (mux_run_parts (new_muxer period) ops)))).
 Proof. exact cc_chain_tables. Qed.
 Print Assumptions C05_cc_tables.
+
+(* the ghost packets are what is on the wire: group by group a call's Write calls concatenate to the serialisation of
+   its packets, and the first four bytes of a serialised packet are the sync byte, the 13-bit PID,
+   payload_unit_start_indicator, the payload flag and the 4-bit continuity_counter of the Packet record *)
+Theorem C05_packets_are_bytes : forall s o,
+  map (@concat Z) (pa_groups (snd (mux_step_part s o))) = map pkt_bytes (pa_pkts (snd (mux_step_part s o))) /\
+  Forall (fun q => exists its, enc_packet q C_MpegTsPacketSize = Ok its) (pa_pkts (snd (mux_step_part s o))).
+Proof. exact step_part_tied. Qed.
+Print Assumptions C05_packets_are_bytes.
+
+Theorem C05_header_readback : forall p target its, enc_packet p target = Ok its ->
+  exists b1 b2 b3 tail,
+    bytes_of_items its = syncByte :: b1 :: b2 :: b3 :: tail /\
+    (b1 mod 32) * 256 + b2 = pkt_pid p mod 8192 /\
+    (b1 / 64) mod 2 = Z.b2z (PacketHeader_PayloadUnitStartIndicator (Packet_Header p)) /\
+    (b3 / 16) mod 2 = Z.b2z (pkt_has_payload p) /\
+    b3 mod 16 = pkt_cc p.
+Proof. exact packet_header_readback. Qed.
+Print Assumptions C05_header_readback.
 
 (* the hypotheses are met by a concrete history; its counters *)
 Example C05_example :
